@@ -37,6 +37,8 @@ MODEL = M4()
 
 def gen(rng, prop, job):
     from . import m4_queue
+    if job.get("long_idle"):
+        return m4_queue.gen_long_idle(rng)
     return m4_queue.gen_scenario(rng, prop)
 
 
@@ -61,6 +63,9 @@ def gen_small(rng, prop, job):
 
 def make_jobs(prop, tier, seed):
     jobs = plug.std_jobs(prop, tier, seed, "m4", n_quick=16, per_quick=8, schedules=6)
+    if prop == "C07":
+        for j in range(1 if tier == "quick" else 4):
+            jobs.append({"kind": "explore", "long_idle": True, "prop": prop, "seed": seed * 22801763 + j, "scenarios": 1, "schedules": 1})
     if tier == "thorough":
         for j in range(16):
             jobs.append({"kind": "pbound", "prop": prop, "seed": seed * 104729 + j, "k": 2, "budget": 1500})
